@@ -329,6 +329,14 @@ def check_radial_and_transform(ctx, prof_name, p, grid, gin, W, out_cls, wrap_ok
             with np.errstate(all="ignore"):
                 du = got[near] / rr[:, None] - frame[near] / r[near][:, None]
             ctx.check(bool(np.all(np.abs(du) <= 1e-12)), "radial.inside_ray", radial_minimum=mn, sent=frame[near], received=got[near], **W)
+        if zero.any():
+            # a coordinate exactly on the profile centre has no direction to be moved along; what must still hold is that the
+            # function never receives a non-finite coordinate or one inside the minimum
+            gz = got[zero]
+            with np.errstate(all="ignore"):
+                rz = np.sqrt(gz[:, 0] ** 2 + gz[:, 1] ** 2)
+            ctx.check(bool(np.isfinite(gz).all() and np.all(rz >= mn * (1 - 1e-12))), "radial.centre_point_leaves_the_minimum", radial_minimum=mn,
+                      received=gz, **W)
         keep = ~zero
         ctx.check(isinstance(res, out_cls) and wrap_ok(res) and _np(res if not hasattr(res, "slim") else res.slim).shape == got.shape
                   and np.array_equal(_np(res if not hasattr(res, "slim") else res.slim)[keep], got[keep]),
